@@ -5,7 +5,7 @@ base environment, then inject / import from it with slices, units and later modi
 the rendered text.  Expected nodes come from the reference interpreter; recorded defects are recognised by running the
 same interpreter with the mechanism of the defect switched on ("buggy twin") and demanding an exact match.
 """
-import os, tempfile, shutil, itertools, copy
+import os, re, tempfile, shutil, itertools, copy
 from vt.core import outcome, dev
 from vt.util import close, exc_sig, plain
 from vt.refmodel import dip_ref_c17 as R
@@ -235,6 +235,7 @@ def judge(prog, obs, with_extra, devs, label):
         devs.append(dev('must-fail-accepted:' + extra['kind'], dict(variant=label, stmt=extra['stmt'], observed=describe(obs))))
     elif obs[0] == 'exc':
         head = str(obs[1].args[0])[:60] if obs[1].args and isinstance(obs[1].args[0], str) else type(obs[1]).__name__
+        head = re.sub(r'[0-9]+', 'N', re.sub(r"'[^']*'", "'..'", head))
         devs.append(dev('valid-program-rejected: ' + head.strip().rstrip(':'), dict(variant=label, exc=exc_sig(obs[1]))))
     else:
         good, bad = split_unreadable(obs[1])
